@@ -14,6 +14,11 @@ C04 model: views of attribute values and of membership masks.
   the `RoiSubsetStateNd` pixel-space shortcut, `SliceSubsetState.to_mask`, `MaskSubsetState`,
   `ElementSubsetState`, composites), `IndexedData._to_original_view/_translate_cid/get_data/get_mask`
   (`glue/core/data_derived.py`).
+* A second dataset whose pixel ids are `LinkSame`-linked to this one's (`links`, for a fully linked pair the
+  axis order `data.pixel_aligned_data[other]`): `Attr.pixelOf` (the other's pixel id read through the
+  position of its axis in the order — the inverse image), `State.predN` (regions on such ids: general path),
+  `State.sliceOf` (re-ordered slices), `State.maskOf`; `Mutant.roiCross` only for the theorems about an
+  extension of the pixel-space shortcut to such ids.
 * `Spec.*` — what C04 demands: the result for a view is the full-size result indexed by the view.
 
 Core Lean only.  numpy's `broadcast_to` / `unbroadcast` / `broadcast_arrays` are modelled by their
